@@ -106,6 +106,19 @@ def diff_oracle(root, case):
         gv = [entry_view(e, pos) for e in got]
     except Exception:  # malformed entries are C04's subject
         return probs, ("malformed",)
+    # the same into a list that already holds entries (an earlier tree's errors): they stay, the same entries follow
+    if got is not None:
+        pre = list(got) + [("earlier", "entry", None)]
+        got2 = list(pre)
+        try:
+            validate.tree(root, got2)
+            if got2[:len(pre)] != pre or [entry_view(e, pos) for e in got2[len(pre):]] != gv:
+                probs.append(problem("tree_errs_depend_on_list_history", case, expected=[(x[0].name, x[2]) for x in gv[:12]],
+                                     observed=[(getattr(e[0], "name", e[0]), pos.get(id(e[2]), "?")) for e in got2[len(pre):][:12]],
+                                     mode="collecting"))
+        except Exception as e:  # noqa
+            probs.append(problem("tree_vs_nodes_collecting_raise", case, expected="no exception with a pre-filled list",
+                                 observed=repr(e), mode="collecting"))
     if ev != gv:
         probs.append(problem("tree_errs_not_concatenation", case,
                              expected=[(x[0].name, x[2]) for x in ev[:12]], observed=[(x[0].name, x[2]) for x in gv[:12]],
